@@ -300,7 +300,9 @@ Inductive op :=
 | OReconnect
 | ORestartNode
 | OUBlockMsg (id : Z) (valid : bool)      (* block message on an untrusted connection *)
-| OUHeaders (hs : list hdr).              (* headers message on an untrusted connection *)
+| OUHeaders (hs : list hdr)               (* headers message on an untrusted connection *)
+| OUTx (t : Z)                            (* tx message on an untrusted connection *)
+| OUInv (t : Z).                          (* inv message on an untrusted connection *)
 
 Record world := World { w_sync : sync; w_uverified : bool }.
 
@@ -368,11 +370,15 @@ Definition step (w : world) (o : op) : world * obs :=
                 (addrs_requested s) (headers_requested s) (connected s) (req_times s) (now s + dt)) [OK]
   | OTimeouts => if timed_out HT HDT BT s then ret (reconnect s) [OK; 1] else ret s [OK; 0]
   | OReconnect => ret (reconnect s) [OK]
-  | ORestartNode => ret (restart_node s) [OK]
+  | ORestartNode => (World (restart_node s) false, OK :: digest (restart_node s))   (* new process: untrusted connections are new too *)
   | OUBlockMsg id valid => ret s [OK]           (* untrusted connections have no block handler *)
   | OUHeaders hs =>
       let '(v, err) := untrusted_headers DELTA s (w_uverified w) hs in
       (World s v, (if err then ERR else OK) :: digest s ++ [b2z v])
+  (* before the untrusted connection is verified its inv / tx messages are dropped; afterwards they
+     enter the transaction pipeline (model/TxFlow.v, source SUntrusted) - here only the gate *)
+  | OUTx t => (w, OK :: digest s ++ [b2z (w_uverified w)])
+  | OUInv t => (w, OK :: digest s ++ [b2z (w_uverified w)])
   end.
 
 Fixpoint run_from (w : world) (ops : list op) : list obs :=
